@@ -21,6 +21,9 @@ pub enum Kind {
     Loc(u8),
     /// CWE warning with first address `A<n>` and an optional second address
     Cwe(u8, Option<u8>),
+    /// CWE warning without any address (what `CweWarning::new` gives when no address is attached;
+    /// the checks CWE215 and CWE332 report such warnings)
+    CweNoAddr,
 }
 
 #[derive(Clone, Debug, Serialize, Deserialize, PartialEq, Eq, Hash)]
@@ -86,6 +89,7 @@ pub fn gen(seed: u64) -> Scenario {
     let mut id = 0u32;
     let mut sent: Vec<(u32, Kind)> = Vec::new();
     let dup_rate = *r.pick(&[0u64, 0, 15, 40]);
+    let addressless_cwes = r.chance(20);
     let mut mk = |r: &mut Rng| {
         id += 1;
         if !sent.is_empty() && r.chance(dup_rate) {
@@ -94,6 +98,7 @@ pub fn gen(seed: u64) -> Scenario {
             return Msg { id, content, kind, yields: 0 };
         }
         let kind = match r.below(10) {
+            _ if addressless_cwes && r.chance(8) => Kind::CweNoAddr,
             0..=3 => Kind::Gen,
             4..=5 => Kind::Loc(r.below(pool) as u8),
             _ => Kind::Cwe(
@@ -149,6 +154,7 @@ fn to_msg(m: &Msg) -> LogThreadMsg {
             }
             CweWarning::new("CWE0", "0", format!("#{}", m.content)).addresses(ad).into()
         }
+        Kind::CweNoAddr => CweWarning::new("CWE0", "0", format!("#{}", m.content)).into(),
     }
 }
 
@@ -287,7 +293,7 @@ pub fn check(sc: &Scenario, hist: &[Ev], out: &Option<Output>) -> Result<(), (St
         (Some(x), Some(y)) => x < y,
         _ => false,
     };
-    let is_cwe = |m: &Msg| matches!(m.kind, Kind::Cwe(..));
+    let is_cwe = |m: &Msg| matches!(m.kind, Kind::Cwe(..) | Kind::CweNoAddr);
     let sent_with = |content: u32, cwe: bool| -> Vec<&Msg> { all.iter().copied().filter(|m| m.content == content && is_cwe(m) == cwe).collect() };
     let count_in = |list: &[u32], content: u32| list.iter().filter(|c| **c == content).count();
 
@@ -362,6 +368,13 @@ pub fn check(sc: &Scenario, hist: &[Ev], out: &Option<Output>) -> Result<(), (St
         }
     }
     check_order(&gen_contents, false, "address-less log")?;
+    // warnings without address have no reporting address to de-duplicate by: every committed one is returned
+    for m in all.iter().filter(|m| m.kind == Kind::CweNoAddr) {
+        let committed = sent_with(m.content, true).iter().filter(|x| done_before(x)).count();
+        if count_in(&out.cwes, m.content) < committed {
+            return err("lost_message", format!("address-less warning #{} was sent {committed} times before collection but returned {} times", m.content, count_in(&out.cwes, m.content)));
+        }
+    }
     // clause 4: per reporting address
     for a in 0..ADDRS {
         // warnings: exactly the last one
